@@ -203,6 +203,7 @@ Proof.
   - (* PNumber *) simpl in H. destruct (rest st) as [|c r] eqn:E; [discriminate|].
     destruct (isdecimal xdecimal c); [|discriminate].
     destruct (run_number xdecimal (length (c :: r)) (take 1 st) [c]) as [st1 ds] eqn:E1.
+    destruct (too_long ds); [discriminate|].
     destruct (int_of xdecimal ds 0); [|discriminate]. inversion H; subst; clear H.
     pose proof (run_number_rem _ _ _ _ _ E1). pose proof (take_rem 1 st).
     assert (rem st = S (length r)) by (unfold rem; rewrite E; reflexivity). split; [lia|lia].
@@ -259,7 +260,7 @@ Proof.
   - simpl. destruct (prefix_eqb t (rest st)); discriminate.
   - simpl. destruct (run_digit xdecimal k st []) as [st1 [ds|]]; [|discriminate]. destruct (int_of xdecimal ds 0); discriminate.
   - simpl. destruct (rest st) as [|c r]; [discriminate|]. destruct (isdecimal xdecimal c); [|discriminate].
-    destruct (run_number xdecimal (length (c :: r)) (take 1 st) [c]) as [st1 ds]. destruct (int_of xdecimal ds 0); discriminate.
+    destruct (run_number xdecimal (length (c :: r)) (take 1 st) [c]) as [st1 ds]. destruct (too_long ds); [discriminate|]. destruct (int_of xdecimal ds 0); discriminate.
   - simpl. destruct (ident_len xdigit xalpha (rest st)); discriminate.
   - simpl. destruct (rest st); discriminate.
   - rewrite run_opt. specialize (IHe st m Hm Hn ce out).
@@ -331,6 +332,7 @@ Proof.
   - simpl in H. destruct (rest st) as [|c r]; [discriminate|]. destruct (isdecimal xdecimal c) eqn:Ec; [|discriminate].
     destruct (run_number xdecimal (length (c :: r)) (take 1 st) [c]) as [st1 ds] eqn:E.
     assert (Hd : forallb (isdecimal xdecimal) ds = true) by (eapply run_number_decimal; [|exact E]; simpl; rewrite Ec; reflexivity).
+    destruct (too_long ds); [discriminate|].
     destruct (int_of_decimal xdecimal ds 0 Hd) as [v Hv]. rewrite Hv in H. discriminate.
   - simpl in H. destruct (ident_len xdigit xalpha (rest st)); discriminate.
   - simpl in H. destruct (rest st); discriminate.
@@ -458,8 +460,9 @@ Proof.
   - simpl. destruct (rest st) as [|c r] eqn:Er; [cbn [res_pos]; split; auto using here_at|].
     destruct (isdecimal xdecimal c); [|cbn [res_pos]; split; auto using here_at].
     destruct (run_number xdecimal (length (c :: r)) (take 1 st) [c]) as [st1 ds] eqn:E.
-    destruct (int_of xdecimal ds 0); cbn [res_pos]; [|exact I]. split; [|exact C].
-    eapply run_number_pos; [|exact E]. apply take_pos. exact P.
+    assert (P1 : Pos s st1) by (eapply run_number_pos; [|exact E]; apply take_pos; exact P).
+    destruct (too_long ds); [cbn [res_pos]; split; auto using here_at|].
+    destruct (int_of xdecimal ds 0); cbn [res_pos]; [|exact I]. split; [exact P1|exact C].
   - simpl. destruct (ident_len xdigit xalpha (rest st)); simpl; split; auto using take_pos, here_at.
   - simpl. destruct (rest st); simpl; split; auto using here_at.
   - rewrite run_opt. specialize (IHe st ce out P C). destruct (run (S f) e st ce out); simpl in *; auto.
@@ -517,7 +520,7 @@ Proof.
   - simpl. destruct (prefix_eqb t (rest st)); discriminate.
   - simpl. destruct (run_digit xdecimal d st []) as [st1 [ds|]]; [|discriminate]. destruct (int_of xdecimal ds 0); discriminate.
   - simpl. destruct (rest st) as [|c r]; [discriminate|]. destruct (isdecimal xdecimal c); [|discriminate].
-    destruct (run_number xdecimal (length (c :: r)) (take 1 st) [c]) as [st1 ds]. destruct (int_of xdecimal ds 0); discriminate.
+    destruct (run_number xdecimal (length (c :: r)) (take 1 st) [c]) as [st1 ds]. destruct (too_long ds); [discriminate|]. destruct (int_of xdecimal ds 0); discriminate.
   - simpl. destruct (ident_len xdigit xalpha (rest st)); discriminate.
   - simpl. destruct (rest st); discriminate.
   - rewrite run_opt. specialize (IHe st ce out Hd). destruct (run (S f) e st ce out); try discriminate. exact IHe.
